@@ -27,6 +27,7 @@ import (
 	"sync"
 	"sync/atomic"
 	"testing"
+	"time"
 
 	"verif/engine/enum"
 	"verif/engine/rep"
@@ -47,6 +48,32 @@ type checker struct {
 	hmu    sync.Mutex
 	honest map[string][]byte
 	perAPI sync.Map // api -> *[2]atomic.Int64 {cases, cases the reference accepts}
+}
+
+// layer names the library layer an entry point belongs to; violation signatures
+// carry the layer (coarse), case descriptions the exact entry point.
+func layer(api string) string {
+	switch {
+	case strings.HasPrefix(api, "tls."), strings.HasPrefix(api, "SignatureVerifier."):
+		return "tls"
+	case strings.HasPrefix(api, "VerifySCTSignature"):
+		return "sct"
+	case strings.HasPrefix(api, "VerifySTHSignature"):
+		return "sth"
+	case strings.HasPrefix(api, "NewFromSignedJSON"):
+		return "loglist"
+	}
+	return "ctutil"
+}
+
+func coarse(family string) string {
+	switch {
+	case strings.HasPrefix(family, "unsigned:"):
+		return "unsigned-field"
+	case strings.HasPrefix(family, "pair:"):
+		return "two-mutations"
+	}
+	return family
 }
 
 func (c *checker) count(api string, accept bool) {
@@ -127,12 +154,12 @@ func (c *checker) judge(api, family string, k *key, h, s uint8, data, sig []byte
 	}
 	switch {
 	case pan:
-		c.r.Violation(api+": panic mut="+family, fmt.Sprintf("%s panicked (%s) key=%s codes=(%d,%d) %s\n%s", api, msg, k.name, h, s, note, stack), desc())
+		c.r.Violation(layer(api)+": panic mut="+coarse(family), fmt.Sprintf("%s panicked (%s) key=%s codes=(%d,%d) %s\n%s", api, msg, k.name, h, s, note, stack), desc())
 	case lerr == nil && stage != stAccept:
-		c.r.Violation(api+": invalid-accepted ref="+stage+" mut="+family,
+		c.r.Violation(layer(api)+": invalid-accepted ref="+stage+" mut="+coarse(family),
 			fmt.Sprintf("%s returned nil but the reference rejects (%s): key=%s codes=(%d,%d) %s signed=%s sig=%s", api, stage, k.name, h, s, note, rep.Hex(data), rep.Hex(sig)), desc())
 	case lerr != nil && stage == stAccept:
-		c.r.Violation(api+": valid-rejected mut="+family,
+		c.r.Violation(layer(api)+": valid-rejected mut="+coarse(family),
 			fmt.Sprintf("%s returned %q but the reference accepts: key=%s codes=(%d,%d) %s signed=%s sig=%s", api, lerr, k.name, h, s, note, rep.Hex(data), rep.Hex(sig)), desc())
 	default:
 		if stage == stAccept && c.r.WantSample() {
@@ -789,11 +816,11 @@ func derMalformations(sig []byte, order *big.Int) []derCase {
 	var out []derCase
 	add := func(name string, b []byte) { out = append(out, derCase{name, b}) }
 	add("exact", clone(sig))
-	add("trailing-outside-00", append(clone(sig), 0))
-	add("trailing-outside-ff", append(clone(sig), 0xff))
-	add("trailing-outside-copy", append(clone(sig), sig...))
-	add("trailing-outside-1000-bytes", append(clone(sig), make([]byte, 1000)...))
-	add("trailing-outside-65000-bytes", append(clone(sig), pat(65000, 3)...))
+	add("trailing-outside", append(clone(sig), 0))
+	add("trailing-outside", append(clone(sig), 0xff))
+	add("trailing-outside", append(clone(sig), sig...))
+	add("trailing-outside", append(clone(sig), make([]byte, 1000)...))
+	add("trailing-outside", append(clone(sig), pat(65000, 3)...))
 	// a third element / stray octets inside the SEQUENCE (one family: they are one way of not being an Ecdsa-Sig-Value)
 	add("trailing-inside-sequence", seq(rT, sT, []byte{0}))
 	add("trailing-inside-sequence", seq(rT, sT, []byte{5, 0}))
@@ -1428,13 +1455,17 @@ func TestCheck(t *testing.T) {
 		"NewFromSignedJSON: algorithm is (sha256, key type) by definition; only RSA and ECDSA keys are supported by its documentation, any other key must yield an error; it applies no key-size policy (it builds no SignatureVerifier)",
 		"construction policy: compliant = *rsa.PublicKey with modulus >= 2048 bits or *ecdsa.PublicKey on the standard library's P-256; other *rsa / *ecdsa keys only with AllowVerificationWithNonCompliantKeys; every other Go value never",
 		"precert path: the expected TBSCertificate is taken from a stored twin certificate issued from the same template without the poison extension (no pre-issuer chains; embedded SCTs are out of scope here)")
-	c.construction()
-	c.codePairs()
-	c.objects()
-	c.derPhase()
-	c.crossKeys()
-	c.logLists()
-	c.certPaths()
+	phases := map[string]float64{}
+	for _, ph := range []struct {
+		name string
+		f    func()
+	}{{"construction", c.construction}, {"code_pairs", c.codePairs}, {"objects", c.objects}, {"signature_values", c.derPhase},
+		{"cross_keys", c.crossKeys}, {"log_lists", c.logLists}, {"certificate_paths", c.certPaths}} {
+		t0 := time.Now()
+		ph.f()
+		phases[ph.name] = float64(int(time.Since(t0).Seconds()*10)) / 10
+	}
+	fmt.Println("phase seconds:", phases)
 	names := []string{}
 	for _, k := range c.keys {
 		names = append(names, k.name)
